@@ -27,6 +27,7 @@ import (
 	"context"
 	"errors"
 	"fmt"
+	"os"
 	"reflect"
 	"runtime"
 	"sort"
@@ -1118,13 +1119,24 @@ func vRestartFull(out *vOut, rng *vRand, nr int) (failed, abort bool) {
 	for deadline := time.Now().Add(20 * time.Second); !returned && time.Now().Before(deadline); {
 		h.mu.Lock()
 		returned = h.returned
+		infl := append([]*vCall(nil), h.inflight...)
 		h.mu.Unlock()
+		// the consumer woken from its back-off by close(stopCh) races with the queue's stop for the next stored request
+		// (both orders are legal, see NOTES.md round 1): if its Read won, that request is now being exported and Shutdown
+		// rightly waits for the call — answer it
+		for _, c := range infl {
+			select {
+			case c.gate <- 0:
+				out.Stat("restart_full_read_won_the_race", 1)
+			default:
+			}
+		}
 		if !returned {
 			time.Sleep(200 * time.Microsecond)
 		}
 	}
 	if !returned {
-		fail("shutdown-hangs", "Shutdown did not return within 20 s although nothing is in flight: "+vHangReport(h.be, "restartfull"))
+		fail("shutdown-hangs", "Shutdown did not return within 20 s although every export call was answered: "+vHangReport(h.be, "restartfull"))
 		h.releaseAll()
 		return true, true
 	}
